@@ -44,6 +44,7 @@ pub fn def_c08() -> PropDef {
 
 pub fn profile_c09() -> Profile {
     Profile {
+        text_conflict_prologue_permille: 120,
         replicas: (2, 4),
         events: (15, 140),
         w_merge: 5,
@@ -69,6 +70,7 @@ pub fn profile_c09() -> Profile {
 
 pub fn profile_c08() -> Profile {
     Profile {
+        text_conflict_prologue_permille: 120,
         replicas: (2, 4),
         events: (15, 140),
         w_merge: 5,
